@@ -409,6 +409,13 @@ M('schur-exceptional-shift-uncounted', 'C13', 'loop-makes-progress',
                         total_iter++;
                     if (total_iter > max_iter)
                         break;""")], 'iterations with iter <= 10 are not counted: cap can be evaded indefinitely if iter keeps being reset')
+M('compressV-nnz-off-by-one', 'C13', 'factorization-index-within-extent',
+  [('LinAlg/Arnoldi.h', "const Index nnz = m_m - m_k + i + 1;", "const Index nnz = m_m - m_k + i + 2;")], 'reads one column past V for the last i')
+M('factorize-H-subdiag-from-zero', 'C13', 'factorization-index-within-extent',
+  [('HermEigsBase.h', "        m_fac.factorize_from(1, m_ncv, m_nmatop);\n        retrieve_ritzpair(selection);\n        // Restarting", "        m_fac.factorize_from(0, m_ncv, m_nmatop);\n        retrieve_ritzpair(selection);\n        // Restarting")],
+  'H(i, i-1) with i = 0')
+M('lanczos-vf-too-short', 'C13', 'factorization-index-within-extent',
+  [('LinAlg/Lanczos.h', "        Vector Vf(to_m);", "        Vector Vf(to_m - 1);")], 'Vf.head(i1) with i1 = to_m in the last step')
 
 # behaviour-preserving edits: every listed check must stay silent (exit 0)
 NEUTRAL = []
